@@ -945,6 +945,34 @@ def negative_inertia(A):
     return changes
 
 
+def inertia_self_test():
+    """negative_inertia against the eigenvalues of a cyclic Jacobi iteration on 80 fixed random symmetric matrices
+    with small rational entries, and on a Laplacian pencil with a known spectrum (weighted 4-cycle of
+    Lap_abs_eps_skip_refuted: eigenvalues 0, b, 2 - b, 2)"""
+    import random as _r
+    g = _r.Random(12345)
+    for _ in range(80):
+        n = g.randint(1, 7)
+        M = [[Fraction(0)] * n for _ in range(n)]
+        for i in range(n):
+            for j in range(i, n):
+                M[i][j] = M[j][i] = Fraction(g.randint(-8, 8), g.choice([1, 2, 4]))
+        ev = jacobi_eigenvalues([[float(x) for x in r] for r in M])
+        if any(abs(e) < 1e-9 for e in ev):
+            continue
+        cnt = negative_inertia(int_matrix(M))
+        if cnt is not None and cnt != sum(1 for e in ev if e < 0):
+            return "negative_inertia disagrees with the Jacobi eigenvalues on %r" % (M,)
+    b = Fraction(1, 10 ** 12)
+    a = 2 - b
+    W = [[0, 2 * a, 0, 2 * b], [2 * a, 0, 2 * b, 0], [0, 2 * b, 0, 2 * a], [2 * b, 0, 2 * a, 0]]
+    pen = LaplacianPencil([[Fraction(x) for x in r] for r in W])
+    got = [pen.count_below(x) for x in (b / 2, b * 2, Fraction(1), a + b / 3, Fraction(3))]
+    if got != [1, 2, 2, 3, 4]:
+        return "inertia counts of the weighted 4-cycle are %r, expected [1, 2, 2, 3, 4]" % (got,)
+    return None
+
+
 class LaplacianPencil:
     """exact pencil (Dg - W, Dg), Dg = diag(W 1), from a symmetric matrix of non-negative rationals W.  The diagonal
     of W (self loops) cancels in Dg - W; it is part of Dg only with self_loops=True (the diffusion pencil
@@ -967,7 +995,22 @@ class LaplacianPencil:
             n = self.n
             rows = [[self.off[i] - sigma * self.deg[i] if i == j else -self.W[i][j] for j in range(n)]
                     for i in range(n)]
-            c = negative_inertia(int_matrix(rows))
+            A = int_matrix(rows)
+            c = negative_inertia(A)
+            if c is None:
+                # a vanishing leading minor depends on the ORDER of the samples, the inertia does not: retry under
+                # symmetric permutations before moving sigma
+                import random as _r
+                g = _r.Random(n)
+                for attempt in range(3):
+                    perm = list(range(n))
+                    if attempt == 0:
+                        perm.reverse()
+                    else:
+                        g.shuffle(perm)
+                    c = negative_inertia([[A[perm[i]][perm[j]] for j in range(n)] for i in range(n)])
+                    if c is not None:
+                        break
             if c is not None:
                 self.cache[sigma] = c
                 return c
@@ -2099,6 +2142,9 @@ def build_all(ctx):
 
 def run(ctx):
     rng = ctx.rng
+    bad = inertia_self_test()
+    if bad:
+        raise RuntimeError("self-test of the check's own exact rank procedure failed: " + bad)
     coq, exes, mexe, table_ok = build_all(ctx)
     st = Stats()
     hist = {}
